@@ -130,4 +130,11 @@ CHECKS.update({
         "technique": "differential symbolic execution (CrossHair + z3) of Example.run_inline vs. the real plugin hooks",
     },
 })
+CHECKS.update({
+    "C15": {
+        "text": "The real session end runs on a two-file project with an outsourced external while every environment call on the path changes-computed -> files-written (black.format_str or the format-command subprocess, Path.read_text, Path.rename, open-for-write) goes through a fault proxy; the index of the failing call, the failure kind (exception / non-zero exit / unparsable output), the create/fix bits and 4 values are symbolic, so the solver enumerates the fault space from the code's own call sequence. Per path: every test file on disk parses and is the old text or a complete correct new text, a formatter crash / non-zero exit leads to a reported problem, every external reference in a file resolves to persisted data, the global state is popped.",
+        "note": "Fault = one transient failure of the at-th environment call (at <= 40). write() failing after truncation and process kills are outside. Two defects found here were repaired (8f7b335, b46ada9).",
+        "technique": "symbolic execution (CrossHair + z3) of the real session end under solver-chosen fault injection (fault index and kind symbolic)",
+    },
+})
 NOT_APPLICABLE = {}
